@@ -232,6 +232,12 @@ func registerNetModel(p *Program) {
 	p.reg("(*github.com/Jigsaw-Code/outline-sdk/transport.TCPDialer).DialStream", func(e *Exec, g *G, a []Value) Value {
 		e.trace = append(e.trace, "DialStream "+e.describe(a[2]))
 		e.userState["dials"] = e.tc.Const(64, e.dialCount()+1)
+		// what net.Dialer does with the hooks of this dialer before it connects is written in Go
+		// on the harness side (ControlContext takes precedence over Control; their verdict on
+		// the literal address decides whether a connection is attempted at all)
+		if fn := e.prog.funcByName("github.com/Jigsaw-Code/outline-ss-server/service", "verifModelDialStream"); fn != nil {
+			return tailCall{fn: &FuncV{Fn: fn}, args: a}
+		}
 		return TupleV{IfaceV{}, e.opError("dial", e.errValue("connect: network is unreachable"))}
 	})
 	p.reg("verif:verifTCPSend", func(e *Exec, g *G, a []Value) Value {
